@@ -318,7 +318,7 @@ def array_abs(obj):
 ARRAY_ONLY_FUNCTIONS = {
     'norm': np.linalg.norm,
     'abs': array_abs,
-    'trans': np.transpose,
+    'trans': lambda x: content_if_0d_array(np.transpose(x)),
     'det': has_one_square_input('det')(np.linalg.det),
     'trace': has_one_square_input('trace')(np.trace),
     'ctrans': lambda x: np.conj(np.transpose(x)),
